@@ -61,6 +61,7 @@ type LoopSpec struct {
 type Contract struct {
 	TimeoutS                        int // per-obligation solver timeout for this function (0 = default)
 	ExitVars                        []Param
+	FreeVars                        []Param // captured variables of a function literal the clauses may mention
 	Sites                           []*SiteSpec
 	Captures                        [][2]string // name, callee#n
 	ReplayAssume                    []*Clause
@@ -113,7 +114,7 @@ type ContractSet struct {
 
 var recoveredRe = regexp.MustCompile(`\brecovered\b`)
 
-var clauseRe = regexp.MustCompile(`^(requires|assigns_abrupt|ensures_panic|ensures_abrupt_assumed|ensures_abrupt|ensures_assumed|ensures|assigns|safe|bounds|pure|trusted|inline|uninterpreted|overflow-checked|wrap64|nopanic|maypanic|script|sweep-callers|ghost|capture|exitvars|timeout|props|replay_assume|replay|observe)\b\s*(.*)$`)
+var clauseRe = regexp.MustCompile(`^(requires|assigns_abrupt|ensures_panic|ensures_abrupt_assumed|ensures_abrupt|ensures_assumed|ensures|assigns|safe|bounds|pure|trusted|inline|uninterpreted|overflow-checked|wrap64|nopanic|maypanic|script|sweep-callers|ghost|capture|exitvars|freevars|timeout|props|replay_assume|replay|observe)\b\s*(.*)$`)
 var labelRe = regexp.MustCompile(`\s+\[([A-Za-z0-9_:.#+\-]+)\]\s*$`)
 
 // parseContractFile reads one contract file.
@@ -399,6 +400,9 @@ func parseContractFile(cs *ContractSet, path, pkgDir string) {
 				cur.Captures = append(cur.Captures, [2]string{ps[0].Name, strings.TrimSpace(m[2][eq+1:])})
 			case "timeout":
 				fmt.Sscanf(m[2], "%d", &cur.TimeoutS)
+			case "freevars":
+				// captured variables of a function literal (contract on "Outer$N"): value at entry
+				cur.FreeVars = append(cur.FreeVars, parseParams(m[2])...)
 			case "exitvars":
 				// local variables an ensures clause may mention (their value at the return)
 				cur.ExitVars = append(cur.ExitVars, parseParams(m[2])...)
@@ -761,6 +765,42 @@ func (c *Contract) resolveSignature(sp *srcPkg) error {
 			return nil
 		}
 		return fmt.Errorf("method %s not found in interface %s (embedded interfaces are not searched)", mn, tn)
+	}
+	if i := strings.Index(c.Func, "$"); i > 0 {
+		// a function literal, named as go/ssa names it: Outer$N (the N-th literal directly inside Outer,
+		// in source order), Outer$N$M ...
+		sf := sp.funcs[c.Func[:i]]
+		if sf == nil {
+			return fmt.Errorf("function %s not found in %s", c.Func[:i], sp.dir)
+		}
+		var node ast.Node = sf.decl.Body
+		for _, part := range strings.Split(c.Func[i+1:], "$") {
+			var want, seen int
+			fmt.Sscanf(part, "%d", &want)
+			var found *ast.FuncLit
+			ast.Inspect(node, func(n ast.Node) bool {
+				if fl, ok := n.(*ast.FuncLit); ok && n != node {
+					seen++
+					if seen == want {
+						found = fl
+					}
+					return false
+				}
+				return found == nil
+			})
+			if found == nil {
+				return fmt.Errorf("function literal %s not found in %s", c.Func, sp.dir)
+			}
+			node = found
+		}
+		fl := node.(*ast.FuncLit)
+		c.Params = append(c.Params, fieldListParams(sp.fset, fl.Type.Params, "p")...)
+		c.Params = append(c.Params, c.FreeVars...)
+		c.Results = fieldListParams(sp.fset, fl.Type.Results, "result")
+		if len(c.Results) == 1 && c.Results[0].Name == "result0" {
+			c.Results[0].Name = "result"
+		}
+		return nil
 	}
 	sf := sp.funcs[c.Func]
 	if sf == nil {
